@@ -22,6 +22,7 @@ import GambitV.Gen.PyCluster
 import GambitV.Gen.PyGetitem
 import GambitV.Gen.PyIo
 import GambitV.Gen.PyGetattr
+import GambitV.Gen.PyCalcFile
 import GambitV.Gen.PySigListGetitem
 import GambitV.Model.Params
 import GambitV.Model.Bulk
@@ -304,6 +305,11 @@ def getattrNested (obj path pn real : String) : Option String := do
 def calcSignature (k : Nat) (pre : List UInt8) (seqs : List (List UInt8)) (real : String) : Option String :=
   cmp "calc_signature" Gen.calc_signature.untranslatable
     (resStr (fun (l : List Int) => natsOf (l.map Int.toNat)) (Gen.calc_signature { k := (k : Int), pre := pre } seqs none)) real
+
+/-- `calc_file_signature` generated from the current source on the records the real parser yielded, against the real file signature -/
+def calcFileSignature (k : Nat) (pre : List UInt8) (recs : List (List UInt8)) (real : String) : Option String :=
+  cmp "calc_file_signature" Gen.calc_file_signature.untranslatable
+    (resStr (fun (l : List Int) => natsOf (l.map Int.toNat)) (Gen.calc_file_signature recs { k := (k : Int), pre := pre } () none)) real
 
 /-- a history of `SignatureList` mutations through the definitions generated from the current source: final list and the positions of the
 operations that raised (a failing operation leaves the list unchanged), in the wire form of `c20.mut` -/
